@@ -138,6 +138,54 @@ def _c08_tasks(tier, seed):
 
 
 SPECIAL["c08"] = _c08_tasks
+
+CONC_ASSUME = [
+    "schedules are explored at the granularity of lock operations, file reads/writes, suspend-counter changes and merges (event level, preemption-bounded, systematic) and of executed lines of library code (random sampling); instructions inside one such step are assumed not to interact otherwise",
+    "threads run under a cooperative scheduler that replaces the library's RLocks (rebinding module globals, no source hooks); the GIL-atomicity of single container operations is assumed",
+    "JSON-file backend (the only one with thread locks usable here); Windows is out of scope (_supports_threading is False there)",
+]
+
+
+def _conc_tasks(profiles_fams, quick, thorough):
+    def mk(tier, seed):
+        out = []
+        n, bound, budget, nrand = quick if tier == "quick" else thorough
+        for profile, fams in profiles_fams:
+            for fam in fams:
+                for i in range(n):
+                    out.append(("unit_conc", (fam, seed * 100003 + i, profile, bound, budget, nrand)))
+        return out
+    return mk
+
+
+def _c10_tasks(tier, seed):
+    out = []
+    for fam in (0, 1, 2, 3, 4, 5):
+        for is_dict in (True, False):
+            for nested in (False, True):
+                for buf in (("no",) if fam in (0, 3) else ("no", "ctx", "cap0")):
+                    out.append(("unit_c10_faults", (fam, is_dict, nested, buf, seed)))
+        out.append(("unit_c10_filename", (fam, seed)))
+    out += _conc_tasks([("bufctx", [1, 2]), ("buffered", [1, 2]), ("writers", [0, 1])], (10, 1, 120, 4), (60, 2, 1500, 30))(tier, seed)
+    return out
+
+
+SPECIAL["c09"] = _conc_tasks([("writers", [0, 3, 1, 2])], (14, 1, 160, 6), (80, 2, 2500, 40))
+SPECIAL["c13"] = _conc_tasks([("buffered", [1, 2, 4, 5])], (12, 1, 160, 6), (70, 2, 2500, 40))
+SPECIAL["c14"] = _conc_tasks([("readers", [0, 3, 1, 2])], (14, 1, 160, 6), (80, 2, 2500, 40))
+SPECIAL["c10"] = _c10_tasks
+CONC_RULE = ("generated programs of 2-3 threads x 1-2 operations (every public mutator incl. clear/reset/pop/reverse, on the root, on a second "
+             "object bound to the same file and on child handles navigated before the threads start); for each program all serial orders are "
+             "executed on the real code to obtain the admissible (results, final content) outcomes; then every schedule with at most `bound` "
+             "forced preemptions at event level is executed on the real code under the deterministic scheduler, plus seeded random line-level "
+             "schedules; an outcome outside the serial set, a deadlock, a leaked lock or a dying thread is a violation; distinct = distinct programs")
+PROPS["C09"] = dict(suites=[dict(unit="conc", special="c09")], rule=CONC_RULE, assumptions=CONC_ASSUME)
+PROPS["C13"] = dict(suites=[dict(unit="conc", special="c13")], rule=CONC_RULE + "; the threads run inside Class.buffer_backend(cap) with cap in {default, 0, 1, 2, 30, 60} over 1-2 files; after the context exits the reported size must be 0", assumptions=CONC_ASSUME)
+PROPS["C14"] = dict(suites=[dict(unit="conc", special="c14")], rule=CONC_RULE + "; at least one thread only reads (getitem/get/len/iter/()/==/in/count, navigation); a read must return a value it returns in some serial order, the final content must be a serial outcome of the writers", assumptions=CONC_ASSUME)
+PROPS["C10"] = dict(suites=[dict(unit="conc", special="c10")],
+                    rule="fault injection: every mutator and read x {unparsable file, wrong container kind, rejected value, missing key/index, OSError in the save, serialisation error} x {root, nested child} x {unbuffered, inside buffer_backend(), capacity 0} on all six JSON families with instrumented locks: afterwards no lock may be owned and a second object must complete a write; filename rebinding scenario; deadlock / leaked-lock detection by the scheduler on buffered programs incl. contexts entered and left by a concurrent thread",
+                    assumptions=CONC_ASSUME)
+
 PROPS["C08"] = dict(
     suites=[dict(unit="c08", special="c08")],
     rule="13 save scenarios (plain save with threading on/off and write_concern, dict/list/attr, two consecutive saves, "
@@ -201,6 +249,8 @@ def aggregate(prop, results):
 
 def signature(prop, v):
     """failure signature used to match known findings: property, operation, failure kind"""
+    if v.get("sig"):
+        return v["sig"]
     msg = v.get("msg", "")
     m = re.match(r"(?:after |operation |read |rejected )?(\w+)", msg)
     return "%s:%s:%s" % (prop, v.get("kind", "shadow"), m.group(1) if m else "?")
@@ -304,6 +354,42 @@ def replay(prop, path):
     if payload.get("kind") == "c08u":
         import c08
         r = c08.unit_c08_unserialisable((payload["extra"]["mode"], 0))
+        for v in r.get("violations", []):
+            print("VIOLATION property=%s replay=%s" % (prop, path))
+            print("  " + v["msg"][:600])
+        return 1 if r.get("violations") else 0
+    if payload.get("kind") in ("conc", "conc-line"):
+        import conc
+        import sched as S
+        import random as _r
+        from conc import Program  # noqa: F401
+        ex = payload["extra"]
+        fam = ns.families[ex["fam_index"]]
+        prog = eval(ex["prog"], {"Program": conc.Program, "MISSING": MISSING})
+        serial = [conc.run_serial(ns, fam, prog, o) for o in conc.serial_orders(prog)]
+        if payload["kind"] == "conc":
+            run = conc.replay_conc(ns, fam, prog, [tuple(x) for x in ex["switches"]], ex["start"])
+        else:
+            r2 = _r.Random(ex["seed"] * 977 + ex["rand_index"])
+            run = conc.run_scheduled(ns, fam, prog, S.RandomSwitch(r2, ex["npts"], r2.choice([1, 1, 2, 3])), line_level=True)
+        bad = [(pr, k, m) for pr, k, m in conc.judge(prog, serial, run, "") if prop in pr]
+        for pr, k, m in bad:
+            print("VIOLATION property=%s replay=%s" % (prop, path))
+            print("  " + m[:600])
+        if not bad:
+            print("replay: no violation of %s on the current tree" % prop)
+        return 1 if bad else 0
+    if payload.get("kind") == "c10":
+        import c10
+        ex = payload["extra"]
+        r = c10.unit_c10_faults((ex["fam_index"], ex["is_dict"], ex["nested"], ex["buffered"], 0))
+        for v in r.get("violations", []):
+            print("VIOLATION property=%s replay=%s" % (prop, path))
+            print("  " + v["msg"][:600])
+        return 1 if r.get("violations") else 0
+    if payload.get("kind") == "c10f":
+        import c10
+        r = c10.unit_c10_filename((payload["extra"]["fam_index"], 0))
         for v in r.get("violations", []):
             print("VIOLATION property=%s replay=%s" % (prop, path))
             print("  " + v["msg"][:600])
